@@ -101,7 +101,13 @@ func ApplyDefaults(n *Node, v any) any {
 	pick := func(branches []*Node) {
 		m, ok := v.(map[string]any)
 		if !ok {
-			return
+			// an array-valued branch is selected by the kind of its elements
+			if arr, isArr := v.([]any); isArr && len(arr) > 0 {
+				m, ok = arr[0].(map[string]any)
+			}
+			if !ok {
+				return
+			}
 		}
 		k, _ := m["kind"].(string)
 		for _, b := range branches {
